@@ -20,6 +20,13 @@ Theorem j2t_encodes_denoted_top :
 Proof. exact J2TProofs.j2t_encodes_denoted_top. Qed.
 Print Assumptions j2t_encodes_denoted_top.
 
+(* api.js_conv under the strict policy agrees with the plain conversion on canonical JSON (used by (1) for o_vm o = true) *)
+Theorem j2t_vm_val_denoted :
+  forall dlex D o t x, vm_ty_ok t = true -> conf dlex D t x = true ->
+    vm_val strict t (json_of dlex D o t x) = Ok (encode x).
+Proof. exact vm_val_denoted. Qed.
+Print Assumptions j2t_vm_val_denoted.
+
 (* ================================================================== (2) text level *)
 
 (* the result depends on the text only through the parsed AST (white space, escapes, member spelling are irrelevant) *)
@@ -55,12 +62,29 @@ Theorem j2t_rejects_kind_mismatch :
 Proof. exact j2t_rejects_kind_mismatch_lemma. Qed.
 Print Assumptions j2t_rejects_kind_mismatch.
 
+(* a plain member (no api.js_conv value mapping in effect for it) *)
 Theorem j2t_member_mismatch_rejected :
   forall P D o i sd s ms k x f, nth_error D i = Some sd -> In (k, x) ms -> find_field sd k = Some f ->
-    is_null x = false -> kind_ok o (f_ty f) x = false ->
+    o_vm o && f_vm f = false -> is_null x = false -> kind_ok o (f_ty f) x = false ->
     exists c, j2t_val P D o (TStruct i) s (JObj ms) = Err c.
 Proof. exact j2t_member_mismatch_rejected_lemma. Qed.
 Print Assumptions j2t_member_mismatch_rejected.
+
+(* an api.js_conv member (EnableValueMapping set): only strings and numbers are looked at *)
+Theorem j2t_vm_member_mismatch_rejected :
+  forall P D o i sd s ms k x f, nth_error D i = Some sd -> In (k, x) ms -> find_field sd k = Some f ->
+    o_vm o && f_vm f = true -> is_null x = false -> vm_kind_ok x = false ->
+    exists c, j2t_val P D o (TStruct i) s (JObj ms) = Err c.
+Proof. exact j2t_vm_member_mismatch_rejected_lemma. Qed.
+Print Assumptions j2t_vm_member_mismatch_rejected.
+
+(* api.js_conv on a field type it does not support (bool, struct, containers) rejects every non-null value *)
+Theorem j2t_vm_member_type_unsupported :
+  forall P D o i sd s ms k x f, nth_error D i = Some sd -> In (k, x) ms -> find_field sd k = Some f ->
+    o_vm o && f_vm f = true -> is_null x = false -> vm_ty_ok (f_ty f) = false -> f_ty f <> TBinary ->
+    exists c, j2t_val P D o (TStruct i) s (JObj ms) = Err c.
+Proof. exact j2t_vm_member_type_unsupported_lemma. Qed.
+Print Assumptions j2t_vm_member_type_unsupported.
 
 Theorem j2t_list_elem_mismatch_rejected :
   forall P D o e s xs x, In x xs -> is_null x = false -> kind_ok o e x = false ->
@@ -84,10 +108,17 @@ Print Assumptions j2t_map_value_mismatch_rejected.
    so the rejections above compose to any depth *)
 Theorem j2t_child_error :
   forall P D o i sd s ms k x f c, nth_error D i = Some sd -> In (k, x) ms -> find_field sd k = Some f ->
-    is_null x = false -> j2t_val P D o (f_ty f) (s + 1) x = Err c ->
+    o_vm o && f_vm f = false -> is_null x = false -> j2t_val P D o (f_ty f) (s + 1) x = Err c ->
     exists c', j2t_val P D o (TStruct i) s (JObj ms) = Err c'.
 Proof. exact j2t_child_error_lemma. Qed.
 Print Assumptions j2t_child_error.
+
+Theorem j2t_vm_child_error :
+  forall P D o i sd s ms k x f c, nth_error D i = Some sd -> In (k, x) ms -> find_field sd k = Some f ->
+    o_vm o && f_vm f = true -> is_null x = false -> vm_val P (f_ty f) x = Err c ->
+    exists c', j2t_val P D o (TStruct i) s (JObj ms) = Err c'.
+Proof. exact j2t_vm_child_error_lemma. Qed.
+Print Assumptions j2t_vm_child_error.
 
 Theorem j2t_elem_error_list :
   forall P D o e s xs x c, In x xs -> is_null x = false -> j2t_val P D o e (s + 1) x = Err c ->
@@ -116,8 +147,10 @@ Print Assumptions j2t_map_key_error.
 (* the composition spelled out for two levels *)
 Theorem j2t_member_mismatch_rejected_nested :
   forall P D o i sd s ms k f i' sd' ms' k' x' f',
-    nth_error D i = Some sd -> In (k, JObj ms') ms -> find_field sd k = Some f -> f_ty f = TStruct i' ->
-    nth_error D i' = Some sd' -> In (k', x') ms' -> find_field sd' k' = Some f' -> is_null x' = false ->
+    nth_error D i = Some sd -> In (k, JObj ms') ms -> find_field sd k = Some f -> o_vm o && f_vm f = false ->
+    f_ty f = TStruct i' ->
+    nth_error D i' = Some sd' -> In (k', x') ms' -> find_field sd' k' = Some f' -> o_vm o && f_vm f' = false ->
+    is_null x' = false ->
     kind_ok o (f_ty f') x' = false -> exists c, j2t_val P D o (TStruct i) s (JObj ms) = Err c.
 Proof. exact j2t_member_mismatch_rejected_nested_lemma. Qed.
 Print Assumptions j2t_member_mismatch_rejected_nested.
@@ -125,12 +158,30 @@ Print Assumptions j2t_member_mismatch_rejected_nested.
 (* ================================================================== (4) nulls / unknown members contribute nothing *)
 
 (* s < max_level: otherwise the depth test (taken only for NON-EMPTY objects) can differ when ms1 ++ ms2 = [] *)
+(* p_vm_quirks P = false: the property's reading (a null api.js_conv member is omitted like any other);
+   the code's behaviour under the quirk is [j2t_vm_null_quirk_rejected] below *)
 Theorem j2t_null_omitted :
   forall P D o i sd s ms1 ms2 k, nth_error D i = Some sd ->
-    (find_field sd k <> None \/ o_disallow_unknown o = false) -> s < max_level ->
+    (find_field sd k <> None \/ o_disallow_unknown o = false) -> p_vm_quirks P = false -> s < max_level ->
     j2t_val P D o (TStruct i) s (JObj (ms1 ++ (k, JNull) :: ms2)) = j2t_val P D o (TStruct i) s (JObj (ms1 ++ ms2)).
 Proof. exact j2t_null_omitted_lemma. Qed.
 Print Assumptions j2t_null_omitted.
+
+(* without EnableValueMapping the policy does not matter *)
+Theorem j2t_null_omitted_novm :
+  forall P D o i sd s ms1 ms2 k, nth_error D i = Some sd ->
+    (find_field sd k <> None \/ o_disallow_unknown o = false) -> o_vm o = false -> s < max_level ->
+    j2t_val P D o (TStruct i) s (JObj (ms1 ++ (k, JNull) :: ms2)) = j2t_val P D o (TStruct i) s (JObj (ms1 ++ ms2)).
+Proof. exact j2t_null_omitted_novm_lemma. Qed.
+Print Assumptions j2t_null_omitted_novm.
+
+(* finding: under the code's quirk a null api.js_conv member is an error *)
+Theorem j2t_vm_null_quirk_rejected :
+  forall P D o i sd s ms k f, nth_error D i = Some sd -> In (k, JNull) ms -> find_field sd k = Some f ->
+    o_vm o && f_vm f = true -> p_vm_quirks P = true ->
+    exists c, j2t_val P D o (TStruct i) s (JObj ms) = Err c.
+Proof. exact j2t_vm_null_quirk_rejected_lemma. Qed.
+Print Assumptions j2t_vm_null_quirk_rejected.
 
 Theorem j2t_unknown_skipped :
   forall P D o i sd s ms1 ms2 k x, nth_error D i = Some sd -> find_field sd k = None ->
@@ -168,19 +219,23 @@ Print Assumptions j2t_unknown_rejected.
 
 (* ================================================================== examples: the hypotheses are satisfiable *)
 
-(* struct 0 { 1: optional i32 a; 2: optional list<string> b; 300: map<i64, S1> m; 4: double d; 5: optional binary x }
+(* struct 0 { 1: optional i32 a; 2: optional list<string> b; 300: map<i64, S1> m; 4: double d; 5: optional binary x;
+              6: i64 v (api.js_conv); 7: i16 w (api.js_conv) }
    struct 1 { 1: optional bool x } *)
 Definition exD : defs :=
-  [[mkFld 1 [[97]] TI32 2; mkFld 2 [[98]] (TList TString) 2; mkFld 300 [[109]] (TMap TI64 (TStruct 1)) 0;
-    mkFld 4 [[100]] TDouble 0; mkFld 5 [[120]] TBinary 2];
-   [mkFld 1 [[120]] TBool 2]].
+  [[mkFld 1 [[97]] TI32 2 false; mkFld 2 [[98]] (TList TString) 2 false; mkFld 300 [[109]] (TMap TI64 (TStruct 1)) 0 false;
+    mkFld 4 [[100]] TDouble 0 false; mkFld 5 [[120]] TBinary 2 false;
+    mkFld 6 [[118]] TI64 0 true; mkFld 7 [[119]] TI16 0 true];
+   [mkFld 1 [[120]] TBool 2 false]].
 
 (* a (partial) double printer: 1.0 -> "1", 0.1 -> "0.1", everything else "0" (conf accepts only what round-trips) *)
 Definition exdlex (b : Z) : list Z :=
   if b =? 4607182418800017408 then [49] else if b =? 4591870180066957722 then [48; 46; 49] else [48].
 
-Definition exo : jopts := mkOpts false false false.       (* allow unknown, no String2Int64, base64 binary *)
-Definition exo_strict : jopts := mkOpts true false false. (* DisallowUnknownField *)
+Definition exo : jopts := mkOpts false false false false.       (* allow unknown, no String2Int64, base64 binary, no value mapping *)
+Definition exo_strict : jopts := mkOpts true false false false. (* DisallowUnknownField *)
+Definition exo_vm : jopts := mkOpts false false false true.     (* EnableValueMapping *)
+Definition code_vm : policy := mkPolicy num_strict false true.  (* strict numbers, but the code's api.js_conv quirks *)
 
 Definition exv : tval :=
   VStruct [(1, VI32 (-5));
@@ -246,8 +301,8 @@ Proof. vm_compute. split; reflexivity. Qed.
 
 (* (3)  {"a":"x"} : string for an i32 field *)
 Example ex_mismatch_hyp :
-  nth_error exD 0 = Some (nth 0 exD []) /\ find_field (nth 0 exD []) [97] = Some (mkFld 1 [[97]] TI32 2) /\
-  is_null (JStr [120]) = false /\ kind_ok exo TI32 (JStr [120]) = false.
+  nth_error exD 0 = Some (nth 0 exD []) /\ find_field (nth 0 exD []) [97] = Some (mkFld 1 [[97]] TI32 2 false) /\
+  o_vm exo && false = false /\ is_null (JStr [120]) = false /\ kind_ok exo TI32 (JStr [120]) = false.
 Proof. vm_compute. repeat split; reflexivity. Qed.
 
 Example ex_mismatch_text : j2t_text strict exD exo (TStruct 0) [123; 34; 97; 34; 58; 34; 120; 34; 125] = Err E_KIND.
@@ -300,3 +355,49 @@ Example ex_num_range :
   j2t_text strict exD exo (TStruct 0) [123; 34; 97; 34; 58; 49; 46; 53; 125] = Err E_NUM /\
   j2t_text strict exD exo (TStruct 0) [123; 34; 97; 34; 58; 49; 101; 50; 125] = Ok [8; 0; 1; 0; 0; 0; 100; 0].
 Proof. vm_compute. repeat split; reflexivity. Qed.
+
+(* ---- api.js_conv (value mapping) ---- *)
+Definition exv_vm : tval := VStruct [(1, VI32 3); (6, VI64 7); (7, VI16 (-2))].
+
+Example ex_vm_conf : conf exdlex exD (TStruct 0) exv_vm = true.
+Proof. vm_compute. reflexivity. Qed.
+
+(* (1) holds with EnableValueMapping too: {"a":3,"v":7,"w":-2} *)
+Example ex_vm_encodes :
+  j2t exD exo_vm (TStruct 0) (json_of exdlex exD exo_vm (TStruct 0) exv_vm) = Ok (encode exv_vm) /\
+  encode exv_vm = [8; 0; 1; 0; 0; 0; 3; 10; 0; 6; 0; 0; 0; 0; 0; 0; 0; 7; 6; 0; 7; 255; 254; 0].
+Proof. vm_compute. split; reflexivity. Qed.
+
+Example ex_vm_encodes_by_thm :
+  j2t exD exo_vm (TStruct 0) (json_of exdlex exD exo_vm (TStruct 0) exv_vm) = Ok (encode exv_vm).
+Proof. apply j2t_encodes_denoted_top; [exact ex_vm_conf | vm_compute; discriminate]. Qed.
+
+(* {"v":"7"} and {"v":7} both give the i64 7; {"v":""} gives zero; {"v":true} is an error *)
+Example ex_vm_text :
+  j2t_text strict exD exo_vm (TStruct 0) [123; 34; 118; 34; 58; 34; 55; 34; 125] = Ok [10; 0; 6; 0; 0; 0; 0; 0; 0; 0; 7; 0] /\
+  j2t_text strict exD exo_vm (TStruct 0) [123; 34; 118; 34; 58; 55; 125] = Ok [10; 0; 6; 0; 0; 0; 0; 0; 0; 0; 7; 0] /\
+  j2t_text strict exD exo_vm (TStruct 0) [123; 34; 118; 34; 58; 34; 34; 125] = Ok [10; 0; 6; 0; 0; 0; 0; 0; 0; 0; 0; 0] /\
+  j2t_text strict exD exo_vm (TStruct 0) [123; 34; 118; 34; 58; 116; 114; 117; 101; 125] = Err E_KIND.
+Proof. vm_compute. repeat split; reflexivity. Qed.
+
+(* without EnableValueMapping the annotation is inert: {"v":"7"} is a kind mismatch (no String2Int64 either) *)
+Example ex_vm_off_text :
+  j2t_text strict exD exo (TStruct 0) [123; 34; 118; 34; 58; 34; 55; 34; 125] = Err E_KIND /\
+  j2t_text strict exD exo (TStruct 0) [123; 34; 118; 34; 58; 55; 125] = Ok [10; 0; 6; 0; 0; 0; 0; 0; 0; 0; 7; 0].
+Proof. vm_compute. split; reflexivity. Qed.
+
+Example ex_vm_mismatch_hyp :
+  find_field (nth 0 exD []) [118] = Some (mkFld 6 [[118]] TI64 0 true) /\ o_vm exo_vm && true = true /\
+  is_null (JBool true) = false /\ vm_kind_ok (JBool true) = false.
+Proof. vm_compute. repeat split; reflexivity. Qed.
+
+(* finding 208: under the code's quirk the i16 api.js_conv field gets one extra byte ({"w":5}: 00 05 05), and a null member is an error *)
+Example ex_vm_quirk_i16 :
+  j2t_text code_vm exD exo_vm (TStruct 0) [123; 34; 119; 34; 58; 53; 125] = Ok [6; 0; 7; 0; 5; 5; 0] /\
+  j2t_text strict  exD exo_vm (TStruct 0) [123; 34; 119; 34; 58; 53; 125] = Ok [6; 0; 7; 0; 5; 0].
+Proof. vm_compute. split; reflexivity. Qed.
+
+Example ex_vm_quirk_null :
+  j2t_text code_vm exD exo_vm (TStruct 0) [123; 34; 119; 34; 58; 110; 117; 108; 108; 125] = Err E_KIND /\
+  j2t_text strict  exD exo_vm (TStruct 0) [123; 34; 119; 34; 58; 110; 117; 108; 108; 125] = Ok [0].
+Proof. vm_compute. split; reflexivity. Qed.
